@@ -406,6 +406,8 @@ def _game_family(name, shard):
             _FAMILIES[key] = U.U_J_games()
         elif name == "U-M":
             _FAMILIES[key] = U.U_M_games()
+        elif name == "U-M2":
+            _FAMILIES[key] = U.U_M2_games()
         elif name == "U-SC":
             _FAMILIES[key] = U.U_SC_games((16, 32, 50, 64, 100, 128, 256) if shard.get("all_sizes") else (256,))
         elif name in ("U-E", "U-C", "U-L", "U-R", "U-P2", "U-N", "U-W", "U-Z", "U-G", "U-K"):
